@@ -14,7 +14,8 @@ def run(ctx):
     return ctx.finish(
         rule=("all extent vectors with entries in 0..B for dimensionality 1..5 (size_t: B=64/12/4/4/4 quick, 300/24/8/6/6 thorough; "
               "int, unsigned, unsigned char, long tuples at 2..5 dims), plus seeded random vectors with product <= 2*10^5, plus boxes of 8- and 16-bit tuples whose cell count is a multiple of 2^bits; the callback "
-              "records every tuple; every exhaustive box of <= 3 dimensions (half of the others, a quarter of the random ones) is also walked with a hostile "
+              "records every tuple; boxes far too large to finish (an extent of 2^31, 2^32+3, 2^40 in some position, size_t / long / unsigned / int tuples): the first "
+              "3000 (thorough 20000) callbacks are observed (inside, distinct, not fewer) and the callback then stops the walk by throwing; every exhaustive box of <= 3 dimensions (half of the others, a quarter of the random ones) is also walked with a hostile "
               "callback that overwrites the CALLER'S extent object half-way (zeroes it / enlarges it): the box to visit is the one passed at the call; oracle: count == product, all inside, sorted-unique has no duplicate (order not checked). "
               "non-trivial = >= 2 dimensions and extents not all equal; distinct = hash of (tuple type, extents)"),
         assumptions=["order of visits is not part of the property and is not asserted",
